@@ -1,0 +1,73 @@
+//go:build verif
+
+package adaptive
+
+// Contracts checked by /verif (contract-based deductive verification).
+// This file is comment-only; it is compiled only with -tags=verif.
+
+//@ import time "time"
+
+// ---- C41: the moving window of the adaptive throttler ------------------------------------
+//
+// A lookback is a ring of `bins` slots; slot b%bins holds what was added for the
+// absolute bin index b, for the bins (head-bins, head]. advance moves head
+// forward to the bin of t (never backwards), add counts a value only if its bin
+// is inside the window, i.e. less than `bins` behind head.
+
+//@ spec func lbOK(l *lookback) bool {
+//@   return l != nil && l.bins > 0 && Z(len(l.buf)) == Z(l.bins) && l.width > 0 && l.bins <= 4294967296 && l.head >= 0 && Z(l.head)+Z(l.bins) < 9223372036854775807
+//@ }
+//@ spec func binOf(l *lookback, t time.Time) int64 { return t.UnixNano() / int64(l.width) }
+
+//@ func (*lookback).advance
+//@   prop C41
+//@   nopanic
+//@   modifies l.head, l.total, l.buf[*]
+//@   requires lbOK(l) && t.UnixNano() >= 0 && Z(binOf(l, t))+Z(l.bins) < 9223372036854775807
+//@   loop 1 invariant 0 <= j && j <= jmax && Z(jmax) == imin(Z(l.bins), Z(nh)-Z(ch)) && ch == old(l.head) && l.head == old(l.head) && nh == binOf(l, t) && nh > ch
+//@   loop 1 invariant l.bins == old(l.bins) && l.width == old(l.width) && len(l.buf) == old(len(l.buf)) && lbOK(l)
+//@   loop 1 decreases Z(jmax) - Z(j)
+//@   ensures result == binOf(l, t)
+//@   ensures l.head == max(old(l.head), result) && result <= l.head
+//@   ensures implies(result <= old(l.head), l.total == old(l.total) && forall(func(k int) bool { return implies(0 <= k && k < len(l.buf), l.buf[k] == old(l.buf[k])) }))
+//@   ensures l.bins == old(l.bins) && l.width == old(l.width) && len(l.buf) == old(len(l.buf))
+
+// add: the value is counted (in its slot and in the total) exactly when its bin
+// is less than `bins` behind the head after advancing; a stale value changes
+// nothing. Return 1 is the early return, "end" the closing brace of the function.
+//@ func (*lookback).add
+//@   prop C41
+//@   nopanic
+//@   requires lbOK(l) && t.UnixNano() >= 0 && Z(binOf(l, t))+Z(l.bins) < 9223372036854775807
+//@   assert at call advance#1 arg0 == l && arg1 == t
+//@   assert at return 1 pos == binOf(l, t) && Z(l.head) - Z(pos) >= Z(l.bins)
+//@   assert at return end pos == binOf(l, t) && Z(l.head) - Z(pos) < Z(l.bins) && pos <= l.head
+//@   ensures l.head == max(old(l.head), binOf(l, t))
+
+//@ func (*lookback).sum
+//@   prop C41
+//@   nopanic
+//@   requires lbOK(l) && t.UnixNano() >= 0 && Z(binOf(l, t))+Z(l.bins) < 9223372036854775807
+//@   assert at call advance#1 arg0 == l && arg1 == t
+//@   ensures result == l.total && l.head == max(old(l.head), binOf(l, t))
+
+// ---- C41: what the throttler feeds into / reads from the two windows ------------------------
+
+//@ func (*Throttler).RegisterBackendResponse
+//@   prop C41
+//@   opt atomic mu
+//@   requires t != nil && lbOK(t.accepts) && lbOK(t.throttles) && t.accepts != t.throttles
+//@   assert at call add#1 throttled && arg0 == t.throttles && arg2 == 1
+//@   assert at call add#2 !throttled && arg0 == t.accepts && arg2 == 1
+
+// Both sums are taken at the same instant `now`; a request is counted as
+// throttled (and refused) exactly when the probability computed from them
+// exceeds the random draw.
+//@ func (*Throttler).ShouldThrottle
+//@   prop C41
+//@   opt atomic mu
+//@   requires t != nil && lbOK(t.accepts) && lbOK(t.throttles) && t.accepts != t.throttles
+//@   assert at call sum#1 arg0 == t.accepts && arg1 == now
+//@   assert at call sum#2 arg0 == t.throttles && arg1 == now
+//@   assert at call add#1 arg0 == t.throttles && arg1 == now && arg2 == 1
+//@   assert at call add#1 !((float64(lastret("sum#1"))+float64(lastret("sum#2"))-t.ratioForAccepts*float64(lastret("sum#1")))/(float64(lastret("sum#1"))+float64(lastret("sum#2"))+t.requestsPadding) <= randomProbability)
